@@ -38,3 +38,7 @@ check("C06", "Hypothesis documents (rules with full metadata, all correlation ty
       "from_dict -> to_dict -> from_dict (and through YAML text) must be a fixed point of the dict form and must not change the queries; after a pipeline transformation to_dict() must either raise a SigmaError or reload to an object that converts like the transformed one.",
       "Queries compared as strings of one backend; correlation rules and filters converted inside a small collection.",
       "DESIGN.md section 3, C06")
+check("C11", "Hypothesis (rule set, filter set, prefix seed, pipeline) pairs; independent targeting predicate + truth-table oracle on decoded queries + isolation differential",
+      "Rules and filters draw detection names from one adversarial pool and conditions from identifier/them/pattern templates; log sources cover all subset relations; rule lists by id/name/any/[]/non-matching. Targeted rules must decode to (rule) AND (filter) by truth table, untargeted rules must be unchanged, and each rule must convert as it does alone with the same filters (also under a renaming pipeline).",
+      "Trusted: vf/ref conditions and rules; random prefix controlled through random.seed.",
+      "DESIGN.md section 3, C11")
